@@ -221,7 +221,61 @@ class Retarget(Harness):
         return None
 
 
-HARNESSES = [Encode(), Retarget()]
+class Numeric(Harness):
+    """numeric encodings by offset (FASTQ qualities '!'+q, digits '0'+d): value = byte - offset, decode is the inverse, input untouched"""
+    name = "numeric"
+    functions = ("DigitEncodingFactory._encode/_decode", "OneToOneEncoding.encode/decode (numeric branch)", "as_encoded_array")
+    bounds = {"quick": "QualityEncoding (bytes '!'..'~') and DigitEncoding ('0'..'9'); base-encoded array of 1 and 3 bytes, ragged [2,0,1]; "
+                       "via enc.encode and via as_encoded_array",
+              "thorough": "adds array of 5 bytes, ragged [1,3,0,2]"}
+    OFFSET = {"QualityEncoding": (33, 126), "DigitEncoding": (48, 57)}
+
+    def skeletons(self, tier, seed):
+        shapes = [("array", [1]), ("array", [3]), ("ragged", [2, 0, 1])] + ([("array", [5]), ("ragged", [1, 3, 0, 2])] if tier == "thorough" else [])
+        return [dict(enc=e, kind=k, lens=l, via=v) for e in self.OFFSET for k, l in shapes for v in ("encode", "as_encoded_array")]
+
+    def inputs(self, skel, V):
+        lo, hi = self.OFFSET[skel["enc"]]
+        for i in range(sum(skel["lens"])):
+            V.int(f"b{i}", lo, hi)
+
+    def call(self, skel, x, ctx):
+        import bionumpy.encodings as E
+        from bionumpy.encoded_array import EncodedArray, EncodedRaggedArray, BaseEncoding, as_encoded_array
+        enc = getattr(E, skel["enc"])
+        n = sum(skel["lens"])
+        flat = EncodedArray(ctx.arr([x[f"b{i}"] for i in range(n)], "uint8"), BaseEncoding)
+        data = flat if skel["kind"] == "array" else EncodedRaggedArray(flat, list(skel["lens"]))
+        res = enc.encode(data) if skel["via"] == "encode" else as_encoded_array(data, enc)
+        dec = enc.decode(res)
+        rav = lambda a: a.ravel() if hasattr(a, "ravel") else a
+        raw = lambda a: a.raw() if hasattr(a, "raw") else a
+        lens = [int(l) for l in res.lengths] if skel["kind"] == "ragged" else [len(res)]
+        return dict(codes=ctx.lst(raw(rav(res))), decoded=ctx.lst(raw(rav(dec))), lens=lens, src=ctx.lst(flat.raw()))
+
+    def post(self, skel, x, out):
+        if isinstance(out, Exc):
+            return False
+        n = sum(skel["lens"])
+        lo = self.OFFSET[skel["enc"]][0]
+        if out["lens"] != list(skel["lens"]) or any(len(out[k]) != n for k in ("codes", "decoded", "src")):
+            return False
+        bs = [x[f"b{i}"].t for i in range(n)]
+        return z_and([TI(c) == b - lo for c, b in zip(out["codes"], bs)] + [TI(d) == b for d, b in zip(out["decoded"], bs)] +
+                     [TI(v) == b for v, b in zip(out["src"], bs)])
+
+    def oracle(self, skel, cx, cout):
+        if isinstance(cout, Exc):
+            return f"{skel['enc']} raised {cout!r}"
+        n = sum(skel["lens"])
+        lo = self.OFFSET[skel["enc"]][0]
+        bs = [cx[f"b{i}"] for i in range(n)]
+        exp = dict(codes=[b - lo for b in bs], decoded=bs, lens=list(skel["lens"]), src=bs)
+        got = {k: ([int(v) for v in cout[k]]) for k in exp}
+        return None if got == exp else f"{skel['enc']} via {skel['via']} on {bytes(bs)!r} rows {skel['lens']}: {got}, expected {exp}"
+
+
+HARNESSES = [Encode(), Retarget(), Numeric()]
 
 
 def prelude(tier):
